@@ -118,7 +118,11 @@ def sort_by_order(
     # The same goes for the fields which are not elements of the view (skipped, init=False,
     # flattened, etc.): they are placeholders too, at their declaration position.
     Entry = Tuple[str, Optional[T], bool]
-    elt_by_name = {name(elt): elt for elt in elts}
+    # several elements can share a name (e.g. operations resolved by lambdas)
+    elt_by_name: Dict[str, T] = {}
+    for elt in elts:
+        elt_by_name.setdefault(name(elt), elt)
+    declared: Set[int] = set()
     entries: List[Tuple[Entry, Optional[Ordering]]] = []
     if isinstance(cls, type):
         from apischema.objects import object_fields
@@ -130,10 +134,13 @@ def sort_by_order(
         for field_name, field in declared_fields.items():
             if field_name in elt_by_name:
                 elt = elt_by_name.pop(field_name)
+                declared.add(id(elt))
                 entries.append(((field_name, elt, False), order(elt)))
             else:
                 entries.append(((field_name, None, True), field.ordering))
-    entries.extend(((name(elt), elt, False), order(elt)) for elt in elt_by_name.values())
+    entries.extend(
+        ((name(elt), elt, False), order(elt)) for elt in elts if id(elt) not in declared
+    )
     elt_names = {entry[0] for entry, _ in entries}
     if isinstance(cls, type):
         for serialized, _ in get_serialized_methods(cls):
@@ -158,13 +165,13 @@ def sort_by_order(
     if not after and not before and len(groups) == 1:
         return [elt for _, elt, placeholder in groups.popitem()[1] if not placeholder]  # type: ignore
     result: List[T] = []
-    added: Set[str] = set()
+    added: Set[int] = set()
 
     def add_to_result(entry: Entry):
         entry_name, elt, placeholder = entry
-        if entry_name in added:
+        if id(entry) in added:
             return
-        added.add(entry_name)
+        added.add(id(entry))
         for before_entry in before[entry_name]:
             add_to_result(before_entry)
         if not placeholder:
